@@ -14,7 +14,8 @@
 //! An op naming a missing stream (or a taken output name) is skipped; streams left open at the
 //! end get a `for_each` sink.
 //! `lost <cores> <n> <k>` runs the tiny real job `stream_par_iter(0..n).replication(Limited(k))
-//! .collect_vec()` on `cores` local cores and prints how many elements arrived (F4 witness).
+//! .collect_vec()` on `cores` local cores and prints how many elements were lost (regression of the
+//! former finding F4: must be 0).
 use std::collections::BTreeMap;
 use std::fmt::Display;
 
@@ -370,7 +371,7 @@ fn any_repl(rng: &mut Rng, total: u64) -> R {
 }
 
 fn gen(rng: &mut Rng, i: usize) -> Case {
-    // the F4 witness on the real engine (a real job is executed: rare)
+    // the former F4 witness on the real engine (a real job is executed: rare)
     if i % 400 == 7 {
         let mut c = Case::new(&["graph", "local", "4"]);
         c.op(&["lost", "4", "100", "3"]);
@@ -402,7 +403,7 @@ fn gen(rng: &mut Rng, i: usize) -> Case {
         }
     }
     let total: u64 = cores.iter().sum();
-    // `unsafe` programs may contain forward links between different layouts (F4 / F8)
+    // `unsafe` programs may contain forward links between different layouts (fallback consumer / F8)
     let unsafe_mode = rng.chance(1, 6);
     let mut live: Vec<(usize, R)> = vec![];
     let mut next = 0usize;
